@@ -202,7 +202,7 @@ theorem bound_new (K : Keys) (c : Color) : promotedBound (abs (b.makeMove K m).1
     · rw [hp] at hP hN hB hR hQ
       rcases hq with q | q | q | q <;> rw [q] at hP hN hB hR hQ <;>
         simp only [ind, true_and, reduceCtorEq, ne_eq, not_false_eq_true, and_true, and_self, if_true,
-          if_false, false_and] at hP hN hB hR hQ <;> omega
+          if_false] at hP hN hB hR hQ <;> omega
   · -- the opponent: material can only disappear
     have z1 : ∀ k, ind (c = b.stm ∧ b.pieceAt (Move.src m) = k ∧ k ≠ Piece.none) = 0 :=
       fun k => ind_neg (fun h => hc h.1)
